@@ -169,10 +169,12 @@ static void vtime_advance_to(int64_t t) {
  * alive, virtual time must not jump over the work it is doing. */
 #include <pthread.h>
 static volatile int live_threads = 0;
-typedef struct { void *(*fn)(void *); void *arg; } ThreadStart;
+extern __thread uint32_t verif_sbx_floor;
+typedef struct { void *(*fn)(void *); void *arg; uint32_t sbx; } ThreadStart;
 static void *thread_trampoline(void *p) {
     ThreadStart ts = *(ThreadStart *) p;
     free(p);
+    verif_sbx_floor = ts.sbx;
     void *r = ts.fn(ts.arg);
     __atomic_sub_fetch(&live_threads, 1, __ATOMIC_SEQ_CST);
     return r;
@@ -189,6 +191,7 @@ int __wrap_pthread_create(pthread_t *t, const pthread_attr_t *a, void *(*fn)(voi
     ThreadStart *ts = malloc(sizeof(ThreadStart));
     ts->fn = fn;
     ts->arg = arg;
+    ts->sbx = janet_vm.sandbox_flags | verif_sbx_floor;
     __atomic_add_fetch(&live_threads, 1, __ATOMIC_SEQ_CST);
     int r = __real_pthread_create(t, a, thread_trampoline, ts);
     if (r != 0) {
